@@ -254,13 +254,41 @@ def compare(a, b, ctx, where="", out=None, ignore_phantom=True, domain=None):
             if not leaf_eq(la, lb):
                 # boundary point: both sides may legitimately differ in which piece owns a
                 # single point if their values agree there
-                if ivs and _equal_at_points(la, lb, ivs):
+                if ivs and _equal_at_points(la, lb, ivs, ctx):
                     continue
                 out.append(Mismatch(where, la, lb, pa + pb))
     return out
 
 
-def _equal_at_points(la, lb, ivs):
+def deep_subst(rf, subs, ctx):
+    """Substitute constants for plain atoms (by id) everywhere in a RatFunc, including inside application arguments
+    (applications are rebuilt through ctx.app so that constant folding / canonicalisation applies)."""
+    def conv(p):
+        out = ctx.num(0)
+        for m, c in p.items():
+            t = ctx.num(c)
+            for k, e in m:
+                if k in subs:
+                    t = t * ctx.num(Fraction(subs[k]) ** e)
+                    continue
+                at = poly.atom_by_id(k)
+                if at.args:
+                    args = [deep_subst(x, subs, ctx) if isinstance(x, RatFunc) else x for x in at.args]
+                    base = ctx.app(at.name, args)
+                    if not isinstance(base, RatFunc):
+                        raise Opaque("substitution produced a case tree")
+                else:
+                    base = RatFunc.atom(at, ctx.tab)
+                t = t * (base ** e)
+            out = out + t
+        return out
+    d = conv(rf.den)
+    if d.is_zero():
+        raise ZeroDivisionError
+    return conv(rf.num) / d
+
+
+def _equal_at_points(la, lb, ivs, ctx=None):
     """If the feasible region pins some single-atom polynomial to a point, substitute."""
     if not (isinstance(la, RatFunc) and isinstance(lb, RatFunc)):
         return False
@@ -275,9 +303,22 @@ def _equal_at_points(la, lb, ivs):
     if not subs:
         return False
     try:
-        return subst_atoms(la, subs).equals(subst_atoms(lb, subs))
+        if subst_atoms(la, subs).equals(subst_atoms(lb, subs)):
+            return True
     except Exception:
-        return False
+        pass
+    if ctx is not None:
+        # the pinned atom may also occur inside min/max/abs/... arguments
+        try:
+            saved = ctx.expand_minmax
+            ctx.expand_minmax = False
+            try:
+                return deep_subst(la, subs, ctx).equals(deep_subst(lb, subs, ctx))
+            finally:
+                ctx.expand_minmax = saved
+        except Exception:
+            return False
+    return False
 
 
 def subst_atoms(rf, subs):
